@@ -82,7 +82,7 @@ def build(ctx, framing, comps_real, key):
     bf3 = Bf3File({"Note": "c06"}, comps_real)
     if framing == "bf3":
         return (lambda sink: bf3.write_file(sink, key),
-                lambda text: Bf3File.read_file(io.StringIO(text), True, key),
+                lambda text, mac=True: Bf3File.read_file(io.StringIO(text), mac, key),
                 lambda binary: 5, [key], bf3)
     ckey = ctx.sym("c06-ckey")
     custkey = ctx.sym("c06-custkey", 10)
@@ -90,8 +90,8 @@ def build(ctx, framing, comps_real, key):
     bec = Bec2File(bf3, [InitCustKeyAuthBlock(), UpdateAuthBlock(code, 7)], key)
     encs = [SoftwareCustKeyEncryptor(ckey, custkey, 0)]
 
-    def rd(text):
-        b = Bec2File.read_file(io.StringIO(text), encs + [ConfigSecurityCodeEncryptor(code)])
+    def rd(text, mac=True):
+        b = Bec2File.read_file(io.StringIO(text), encs + [ConfigSecurityCodeEncryptor(code)], mac)
         if b.session_key != key:
             raise AssertionError("session key differs")
         return b.bf3file
@@ -163,6 +163,13 @@ def check_written(ctx, o, framing, content_list, comps_real, key, extra_needles,
         elif not c.encrypt_by_session_key:
             o.cls = "read-differs"
             o.viol("read|flag", "%s: component %d lost its encrypted flag" % (what, i))
+    # decryption does not depend on MAC checking: the same file read with checking switched off gives the same components
+    try:
+        back2 = reader(text, False)
+        if [shapes.view_component(c) for c in back2.components] != [shapes.view_component(c) for c in back.components]:
+            o.viol("read|no-mac-check-differs", "%s: reading without MAC checking gives other components" % what)
+    except Exception as e:
+        o.viol("read|no-mac-check-raises|%s" % type(e).__name__, "%s: reading without MAC checking raised %r" % (what, e))
     return o
 
 
